@@ -28,6 +28,7 @@ META = {
     "assumptions": ["float/true division modelled as exact rationals; round() records its exact argument",
                     "GAF reader stub yields Alignment objects whose is_primary comes from the real parser"],
 }
+META["explanation"] += '  The optional columns of the records come in four layouts (other tag + ds:Z + tp + cg; tp alone or cg alone; cg first; tp first), and the CIGAR handed to stat is the one the real parser extracted from that layout.'
 
 QL = [10, 7, 4]
 BL = [5, 9, 3]
@@ -48,23 +49,26 @@ def harnesses(tier):
     hs.append({"id": "n0/empty", "params": {"tp": [], "names": [], "cigar": False}, "timeout": 60})
     for tp in "PSI-":
         hs.append({"id": "n1/%s" % tp, "params": {"tp": [tp], "names": ["a"], "cigar": False}, "timeout": 120, "twin": tp == "P"})
+        for lay in (1, 2, 3):
+            hs.append({"id": "n1/%s/layout%d" % (tp, lay), "params": {"tp": [tp], "names": ["a"], "cigar": lay != 2, "cigars": [1], "layout": lay}, "timeout": 120})
     for tps in itertools.product("PS-", repeat=2):
         for names in (["a", "a"], ["a", "b"]):
-            hs.append({"id": "n2/%s/%s" % ("".join(tps), "".join(names)), "params": {"tp": list(tps), "names": names, "cigar": False},
+            lay = (len(hs) % 4)
+            hs.append({"id": "n2/%s/%s" % ("".join(tps), "".join(names)), "params": {"tp": list(tps), "names": names, "cigar": False, "layout": lay},
                        "timeout": 200})
     hs.append({"id": "n2/PI/ab", "params": {"tp": ["P", "I"], "names": ["a", "b"], "cigar": False}, "timeout": 200})
     combos = list(itertools.product("PS-I", repeat=3))
     if tier == "quick":
         combos = [c for i, c in enumerate(combos) if i % 3 == 0 or c in (("P", "P", "P"), ("S", "S", "S"), ("-", "-", "-"))]
         for i, c in enumerate(combos):
-            hs.append({"id": "n3/%s/%s" % ("".join(c), "".join(NAMES[i % 5])), "params": {"tp": list(c), "names": NAMES[i % 5], "cigar": False},
+            hs.append({"id": "n3/%s/%s" % ("".join(c), "".join(NAMES[i % 5])), "params": {"tp": list(c), "names": NAMES[i % 5], "cigar": False, "layout": i % 4},
                        "timeout": 300})
     else:
         for c in combos:
             for nm in NAMES:
-                hs.append({"id": "n3/%s/%s" % ("".join(c), "".join(nm)), "params": {"tp": list(c), "names": nm, "cigar": False}, "timeout": 600})
+                hs.append({"id": "n3/%s/%s" % ("".join(c), "".join(nm)), "params": {"tp": list(c), "names": nm, "cigar": False, "layout": len(hs) % 4}, "timeout": 600})
     for i, cg in enumerate(itertools.combinations(range(len(CIGARS)), 2)):
-        hs.append({"id": "cigar/%d-%d" % cg, "params": {"tp": ["P", "-"], "names": ["a", "b"], "cigar": True, "cigars": list(cg)}, "timeout": 200,
+        hs.append({"id": "cigar/%d-%d" % cg, "params": {"tp": ["P", "-"], "names": ["a", "b"], "cigar": True, "cigars": list(cg), "layout": [0, 2, 3, 1][i % 4]}, "timeout": 200,
                    "twin": i == 0})
     for a, b in ((1, 6), (6, 2), (2, 6)):
         hs.append({"id": "cigar/nocg-%d-%d" % (a, b), "params": {"tp": ["P", "P"], "names": ["a", "b"], "cigar": True, "cigars": [a, b]}, "timeout": 200})
@@ -75,21 +79,41 @@ def harnesses(tier):
     return hs
 
 
-def is_primary_of(tp):
+def opt_fields(tp, cg, layout):
+    """the optional columns of a record in one of four layouts (text starting with a tab, or empty)
+    0: another tag and a ds:Z tag (documented as dropped) precede tp and cg; 1: as few fields as possible - tp alone, or cg alone when
+    there is no tp; 2: cg first, then tp; 3: tp first, another tag, cg last"""
+    t = TP[tp]
+    c = ("\tcg:Z:" + cg) if cg else ""
+    if layout == 1:
+        return t if t else c
+    if layout == 2:
+        return c + t
+    if layout == 3:
+        return t + "\tNM:i:-1" + c
+    return "\tNM:i:-1\tds:Z::2*ag:3" + t + c
+
+
+def parsed_cigar(cg, tp, layout):
+    """the CIGAR the record carries in that layout (layout 1 has no room for it next to a tp tag)"""
+    return "" if (layout == 1 and TP[tp]) else cg
+
+
+def is_primary_of(tp, cg="5=", layout=0):
     """classification by the real parser"""
     GA = M["GA"]
-    # a ds:Z tag (documented as dropped) and another tag precede the tp tag
-    line = "x\t10\t0\t5\t+\t>s1\t100\t0\t50\t5\t5\t60\tNM:i:-1\tds:Z::2*ag:3" + TP[tp] + "\tcg:Z:5=\n"
+    line = "x\t10\t0\t5\t+\t>s1\t100\t0\t50\t5\t5\t60" + opt_fields(tp, cg, layout) + "\n"
     e = stubs.env()
     e.files["probe.gaf"] = stubs.MFile("text", [line], None)
     g = GA.GAF("probe.gaf")
     al = next(iter(g.read_file()))
     g.close()
-    CIGAR_OK[0] = CIGAR_OK[0] and al.cigar == "5="
+    PARSED_CG.append(al.cigar)
     return al.is_primary
 
 
 CIGAR_OK = [True]
+PARSED_CG = []
 
 
 def oracle(n, names, prim, mq, qs, qe, rm, cigars, frac):
@@ -144,16 +168,18 @@ def build(params):
         qe = [a[4 * i + 2] for i in range(n)]
         rm = [a[4 * i + 3] for i in range(n)]
         CIGAR_OK[0] = True
-        prim = [is_primary_of(t) for t in tps]
-        if params.get("cigar") and not CIGAR_OK[0]:
-            return "the cg:Z: field that follows a ds:Z tag is not parsed: its runs are missing from the --cigar counts"
+        lay = params.get("layout", 0)
+        del PARSED_CG[:]
+        prim = [is_primary_of(t, cig[i], lay) for i, t in enumerate(tps)]
+        cig_real = list(PARSED_CG)  # what the real parser made of the cg column: this is what stat counts
+        cig_seen = [parsed_cigar(cig[i], tps[i], lay) for i in range(n)]
         # the statement's definition: primary iff tp:A is P (or absent, i.e. not marked secondary)
         want_prim = [t in ("P", "p", "-") for t in tps]
         e = stubs.env()
         recs = []
         for i in range(n):
             recs.append((i, (lambda i=i: GA.Alignment(names[i], QL[i], qs[i], qe[i], "+", ">s1", 100, 0, 50, rm[i], BL[i], mq[i],
-                                                        prim[i], cig[i], tags={}))))
+                                                        prim[i], cig_real[i], tags={}))))
         e.gaf_records["x.gaf"] = recs
         if params.get("twice"):
             # an earlier run_stat call in the same process (other file) must not influence this report
@@ -165,7 +191,7 @@ def build(params):
         for r in w.records:
             if len(r) >= 2 and isinstance(r[0], str):
                 d[r[0]] = r[1]
-        o = oracle(n, names, want_prim, mq, qs, qe, rm, cig if params.get("cigar") else None, rt.Q)
+        o = oracle(n, names, want_prim, mq, qs, qe, rm, cig_seen if params.get("cigar") else None, rt.Q)
         if not (d.get("Total alignments:") == o["total"]):
             return "total alignments"
         if not (d.get("\tPrimary:") == o["primary"]):
@@ -215,10 +241,11 @@ def replay(params, model, wd):
     qe = [a[4 * i + 2] for i in range(n)]
     rm = [a[4 * i + 3] for i in range(n)]
     cig = [CIGARS[i] for i in params["cigars"]] if params.get("cigar") else ["5="] * n
+    lay = params.get("layout", 0)
     lines = []
     for i in range(n):
-        lines.append("%s\t%d\t%d\t%d\t+\t>s1\t100\t0\t50\t%d\t%d\t%d\tNM:i:-1\tds:Z::2*ag:3%s%s" % (names[i], QL[i], qs[i], qe[i], rm[i], BL[i], mq[i], TP[tps[i]],
-                                                                              ("\tcg:Z:" + cig[i]) if cig[i] else ""))
+        lines.append("%s\t%d\t%d\t%d\t+\t>s1\t100\t0\t50\t%d\t%d\t%d%s" % (names[i], QL[i], qs[i], qe[i], rm[i], BL[i], mq[i], opt_fields(tps[i], cig[i], lay)))
+    cig = [parsed_cigar(cig[i], tps[i], lay) for i in range(n)]
     gaf = os.path.join(wd, "x.gaf")
     open(gaf, "w").write("".join(l + "\n" for l in lines))
     out = os.path.join(wd, "o.txt")
